@@ -106,6 +106,8 @@ func checkC11(c *Ctx) {
 	checkC11Overwrite(c, p)
 	checkDecodeFresh(c, p)
 	checkReturnAlias(c, p)
+	checkCacheReset(c, p, "C11.overwrite", nil)
+	checkOptionalFields(c, p, "C11.overwrite", nil)
 	checkClearBeforeCopy(c, p, "C11.overwrite", "ecc/goldilocks", "Scalar", "FromBytes")
 	checkC11Fresh(c, p)
 	checkC11Retain(c, p)
@@ -228,7 +230,7 @@ var outputParam = regexp.MustCompile(`^(dst|out|output|buf|b|ct|ss|sig|signature
 // checkC11Operands: protocol-level API operations do not write their non-receiver operands.
 func checkC11Operands(c *Ctx, p *Program) {
 	mod := p.Mod()
-	pkgs := []string{"oprf", "zk/dleq", "zk/dl", "zk/qndleq", "secretsharing", "math/polynomial", "tss/rsa", "hpke", "sign/bls", "blindsign/blindrsa", "blindsign/blindrsa/partiallyblindrsa", "abe/cpabe/tkn20", "ot/simot", "kem/hybrid", "kem/xwing", "dh/csidh", "dh/curve4q", "dh/x25519", "dh/x448", "ecc/fourq"}
+	pkgs := []string{"oprf", "zk/dleq", "zk/dl", "zk/qndleq", "secretsharing", "math/polynomial", "tss/rsa", "hpke", "sign/bls", "blindsign/blindrsa", "blindsign/blindrsa/partiallyblindrsa", "abe/cpabe/tkn20", "ot/simot", "kem/hybrid", "kem/xwing", "dh/csidh", "dh/curve4q", "dh/x25519", "dh/x448", "ecc/fourq", "ecc/bls12381"}
 	// declared outputs, by (function, parameter name)
 	declared := map[string]bool{
 		"dh/csidh.GeneratePublicKey#pub":  true, // documented: pub receives the generated key
